@@ -362,6 +362,10 @@ def VS.endBlock (v : VS) (h : Nat) : VS :=
 becomes Unbonded (its delegations and distribution records stay; it has delegator shares, so it is not removed) -/
 def VS.matureVal (v : VS) : VS := if v.bonded then v else { v with unbonded := true }
 
+/-- the same when only the unbonding periods that began at a height ≤ `H` are over (`UnbondAllMatureValidators` walks
+the validator queue up to the block time: a validator whose `UnbondingHeight` is later stays Unbonding) -/
+def VS.matureValTo (v : VS) (H : Nat) : VS := if v.ubHeight ≤ H then v.matureVal else v
+
 def cmpShares (name : String) (a b : Nat) : Bool :=
   if name == "LT" then decide (a < b)
   else if name == "LTE" then decide (a ≤ b)
@@ -544,7 +548,9 @@ structure State where
   height : Nat := 1
   vs : Nat → VS := fun _ => {}
   allow : Nat → Nat → Nat → Nat := fun _ _ _ => 0      -- validator, owner, spender ↦ shares
-  redel : List (Nat × Nat × Nat × Nat) := []             -- (delegator, src, dst, creation height of the entry)
+  redel : List (Nat × Nat × Nat × Nat × Nat × Nat) := []  -- (delegator, src, dst, creation height of the entry,
+                                                         --  InitialBalance = tokens moved, SharesDst = shares issued
+                                                         --  at the destination)
   ubd : List (Nat × Nat × Nat × Nat) := []               -- (delegator, validator, creation height, balance); the
                                                          -- entries one delegator creates at one validator within one
                                                          -- block are ONE entry of the SDK record (balances added up)
@@ -576,7 +582,9 @@ inductive Op
   | alloc (v amt : Nat)
   | slash (v power factor : Nat)
   | block
-  | mature              -- the unbonding period passes, then the staking EndBlocker (`BlockValidatorUpdates`) runs
+  | mature (H : Nat)    -- the unbonding period of everything that began at a height ≤ `H` passes (entries created
+                        -- later are NOT mature yet), then the staking EndBlocker (`BlockValidatorUpdates`) runs;
+                        -- `H` ≥ the current height: everything matures
   | jail (v : Nat)      -- staking `Jail`: out of the power index; the status changes at the next validator-set update
   | unjail (v : Nat)    -- staking `Unjail`
 deriving Repr, DecidableEq
@@ -694,8 +702,10 @@ def State.exec (c : Cfg) (s : State) : Op → Except Err State
           -- `getBeginInfo`: the entry of a Bonded source is stamped with the current height, that of an Unbonding source
           -- with the height at which the source validator left the active set
           -- … and a redelegation away from an Unbonded source completes at once: no entry
+          -- the entry records `InitialBalance` = the tokens moved and `SharesDst` = the shares issued at the destination
           .ok { s1 with redel := if (s.vs src).unbonded then s1.redel
-                                 else s1.redel ++ [(d, src, dst, if (s.vs src).bonded then s.height else (s.vs src).ubHeight)] }
+                                 else s1.redel ++ [(d, src, dst, if (s.vs src).bonded then s.height else (s.vs src).ubHeight,
+                                                    ret, ((vdst.del d).getD 0) - (((s.vs dst).del d).getD 0))] }
   | .withdraw d v =>
     if !(s.okAcc d && s.okVal v) then .error .badArgs else
     match (s.vs v).withdrawMsg s.height d with
@@ -726,17 +736,20 @@ def State.exec (c : Cfg) (s : State) : Op → Except Err State
   | .block => .ok { s with height := s.height + 1, vs := fun i => (s.vs i).endBlock s.height,
                            bondedPool := s.bondedPool - s.leaving + s.entering,
                            notBondedPool := s.notBondedPool + s.leaving - s.entering }
-  -- the unbonding period (21 days) passes and the staking EndBlocker runs: validator-set update as in `block`; the
-  -- validators that are still out of the active set become Unbonded; every unbonding-delegation entry is mature and is
-  -- paid back from the not-bonded pool; every redelegation entry is mature and is dropped; next height
-  | .mature =>
+  -- the unbonding period (21 days) of everything that began at a height ≤ `H` passes and the staking EndBlocker runs:
+  -- validator-set update as in `block`; the validators that are still out of the active set and left it at a height ≤ `H`
+  -- become Unbonded; every unbonding-delegation entry created at a height ≤ `H` is mature and is paid back from the
+  -- not-bonded pool, the later ones stay; every redelegation entry stamped with a height ≤ `H` is mature and is dropped,
+  -- the later ones stay (and keep refusing share transfers of the receiving delegator); next height
+  | .mature H =>
     .ok { s with height := s.height + 1,
                  -- a validator that leaves the active set in this very update has its unbonding period ahead of it
-                 vs := fun i => if (s.vs i).bonded then (s.vs i).endBlock s.height else ((s.vs i).endBlock s.height).matureVal,
+                 vs := fun i => if (s.vs i).bonded then (s.vs i).endBlock s.height else ((s.vs i).endBlock s.height).matureValTo H,
                  bondedPool := s.bondedPool - s.leaving + s.entering,
-                 notBondedPool := s.notBondedPool + s.leaving - s.entering - ubdTotal s.ubd,
-                 returned := fun d => s.returned d + ubdTotal (s.ubd.filter (fun u => u.1 == d)),
-                 ubd := [], redel := [] }
+                 notBondedPool := s.notBondedPool + s.leaving - s.entering - ubdTotal (s.ubd.filter (fun u => decide (u.2.2.1 ≤ H))),
+                 returned := fun d => s.returned d + ubdTotal ((s.ubd.filter (fun u => decide (u.2.2.1 ≤ H))).filter (fun u => u.1 == d)),
+                 ubd := s.ubd.filter (fun u => !decide (u.2.2.1 ≤ H)),
+                 redel := s.redel.filter (fun r => !decide (r.2.2.2.1 ≤ H)) }
   | .jail v =>
     if !(s.okVal v) || (s.vs v).jailed then .error .badArgs
     else .ok (s.setVS v { s.vs v with jailed := true })
@@ -751,6 +764,27 @@ def State.step (c : Cfg) (s : State) (o : Op) : State :=
   | .error _ => s
 
 def State.run (c : Cfg) (s : State) (ops : List Op) : State := ops.foldl (State.step c) s
+
+/-- several precompile calls made by ONE transaction (a contract that loops over validators and calls
+`transferFromShares` for each): the calls run in order on the running state; the first failure fails the whole group
+(the contract lets the failure bubble up, the EVM reverts the transaction: property C09) -/
+def State.execAll (c : Cfg) : State → List Op → Except Err State
+  | s, [] => .ok s
+  | s, o :: os => match s.exec c o with | .ok s' => State.execAll c s' os | .error e => .error e
+
+/-- one transaction of the chain: a single precompile call, an all-or-nothing group of calls (`atomic`), or a group whose
+caller swallows the failure of each call (`each`: a failed call is reverted on its own, the others stand) -/
+inductive Tx
+  | one (o : Op)
+  | atomic (os : List Op)
+  | each (os : List Op)
+
+def State.stepTx (c : Cfg) (s : State) : Tx → State
+  | .one o => s.step c o
+  | .atomic os => match s.execAll c os with | .ok s' => s' | .error _ => s
+  | .each os => s.run c os
+
+def State.runTx (c : Cfg) (s : State) (txs : List Tx) : State := txs.foldl (State.stepTx c) s
 
 def VS.delSum (v : VS) (n : Nat) : Nat := sumTo n (fun d => (v.del d).getD 0)
 
